@@ -7,7 +7,7 @@ use serde_json::{Value as J, json};
 use std::collections::{BTreeMap, BTreeSet};
 use std::hash::{Hash, Hasher};
 use std::sync::Mutex;
-use std::sync::atomic::{AtomicBool, AtomicU64, Ordering};
+use std::sync::atomic::{AtomicU64, Ordering};
 use std::time::Instant;
 
 pub const VERIF_ROOT: &str = "/verif";
@@ -76,7 +76,15 @@ pub struct Stats {
     samples: Mutex<Vec<J>>,
     known_hits: Mutex<BTreeMap<String, u64>>,
     notes: Mutex<BTreeMap<String, J>>,
-    pub frozen: AtomicBool,
+}
+
+thread_local! {
+    /// Set while the current thread's proptest run is shrinking (counters must not move).
+    static FROZEN: std::cell::Cell<bool> = const { std::cell::Cell::new(false) };
+}
+
+pub fn set_frozen(b: bool) {
+    FROZEN.with(|c| c.set(b));
 }
 
 impl Default for Stats {
@@ -96,11 +104,10 @@ impl Stats {
             samples: Mutex::new(Vec::new()),
             known_hits: Mutex::new(BTreeMap::new()),
             notes: Mutex::new(BTreeMap::new()),
-            frozen: AtomicBool::new(false),
         }
     }
     fn live(&self) -> bool {
-        !self.frozen.load(Ordering::Relaxed)
+        !FROZEN.with(|c| c.get())
     }
     pub fn eval(&self) {
         if self.live() {
@@ -235,10 +242,12 @@ where
     let result = runner.run(strategy, |v| match test(&v) {
         Ok(()) => Ok(()),
         Err(m) => {
-            stats.frozen.store(true, Ordering::Relaxed);
+            let _ = stats;
+            set_frozen(true);
             Err(TestCaseError::fail(m))
         }
     });
+    set_frozen(false);
     let out = match result {
         Ok(()) => Search::Passed,
         Err(TestError::Fail(reason, minimal)) => Search::Failed {
